@@ -40,7 +40,7 @@ func schedC05(c *ctx) map[string]interface{} {
 }
 
 func schedC06(c *ctx) map[string]interface{} {
-	a := runSched(c, []famCount{{"drain", c.scale(1500)}, {"failfast", c.scale(900)}, {"mix", c.scale(900)}, {"cancel", c.scale(500)}, {"coe", c.scale(400)}, {"prompt", c.scale(300)}, {"emitgx", c.scale(200)}}, false)
+	a := runSched(c, []famCount{{"drain", c.scale(1500)}, {"failfast", c.scale(900)}, {"mix", c.scale(900)}, {"cancel", c.scale(500)}, {"coe", c.scale(400)}, {"prompt", c.scale(300)}, {"emitgx", c.scale(400)}}, false)
 	return a.coverage(ruleS + "at least two jobs; after every scenario the process must return to its goroutine baseline (leaks are diagnosed from three stable dumps)")
 }
 
